@@ -171,8 +171,11 @@ class Prop(PropBase):
             sh = g.uniform(-3, 3, size=z.sample_shape)
             return [z, sh], lambda: pb.time_shift(z, sh, crop=rng.random() < 0.5)
         if call == "freq_shift" and bb:
-            q = np.array([0.1, -0.2])[:z.shape[1]] * z.sample_rate if z.shape[1] == 2 else 0.1 * z.sample_rate
-            q = q if z.ndim == 2 else 0.1 * z.sample_rate
+            vals = rng.choice([[0.1, -0.2], [1.3, -0.2], [-2.5, 0.4], [0.25, 3.0]])       # in band and beyond the bandwidth
+            q = np.array(vals)[:z.shape[1]] * z.sample_rate if z.shape[1] == 2 else vals[0] * z.sample_rate
+            q = q if z.ndim == 2 else vals[0] * z.sample_rate
+            # the shift written in the unit the code converts to (Hz, 1/s: a conversion that may return a view) or another one
+            q = q.to(rng.choice([u.Hz, 1 / u.s, u.kHz, u.MHz]))
             return [z, q], lambda: pb.freq_shift(z, q)
         if call == "fast_len":
             return [z], lambda: pb.fast_len(z)
